@@ -295,6 +295,16 @@ func c19ImageNodes(cls string) []c19Node {
 			n = append(n, c19Node{path: fmt.Sprintf("d/%s%d", strings.Repeat("n", l), i), link: strings.Repeat("t", 40*i+1)})
 			n = append(n, c19Node{path: fmt.Sprintf("%s%d", strings.Repeat("m", l), i), link: strings.Repeat("../x/", 20*i) + "e"})
 		}
+		// components at the edge of what one SL component record holds (245 bytes), in first, middle and last position
+		for _, l := range []int{244, 245, 246, 247, 490, 491} {
+			c := strings.Repeat("k", l)
+			n = append(n, c19Node{path: fmt.Sprintf("e%dfirst", l), link: c + "/file.txt"}, c19Node{path: fmt.Sprintf("e%dmid", l), link: "/a/" + c + "/b"}, c19Node{path: fmt.Sprintf("e%dlast", l), link: "x/" + c})
+		}
+		// long targets up to the 4095-byte limit: several continuation areas in a Rock Ridge image
+		for _, l := range []int{1000, 2000, 4095} {
+			t := strings.Repeat(strings.Repeat("p", 99)+"/", l/100) + strings.Repeat("q", l%100)
+			n = append(n, c19Node{path: fmt.Sprintf("long%d", l), link: t[:l]})
+		}
 		n = append(n, c19Node{path: "d/big1", link: strings.Repeat("c", 250)}, c19Node{path: "d/big2", link: "/" + strings.Repeat("c", 300) + "/" + strings.Repeat("e", 255)},
 			c19Node{path: "d/plain", mode: 0o640, uid: 5, gid: 6, mtime: 1600000001}, c19Node{path: "dots", link: "./../.././a/.."})
 		return n
